@@ -6,6 +6,8 @@ import (
 	"fmt"
 	"go/token"
 	"go/types"
+	"os"
+	"sort"
 	"strings"
 
 	"golang.org/x/tools/go/ssa"
@@ -101,9 +103,7 @@ func (ex *Exec) dispatch(fr *Frame, st *State, cc *ssa.CallCommon, fnv Value, ar
 		}
 	case fn != nil && fn.Blocks != nil && ex.isTargetFn(fn):
 		// in-package callee, not inlined: frame = inferred write set
-		for k := range ex.prog.Pre.WriteSet[fn] {
-			ex.havocKey(st, k)
-		}
+		ex.havocInferred(st, ex.prog.Pre.WriteSet[fn])
 		ex.havocEscapedCells(fr, st)
 		st.Time++
 		res = ex.freshResult(st, "ret!"+shortCallee(name), rt)
@@ -112,9 +112,7 @@ func (ex *Exec) dispatch(fr *Frame, st *State, cc *ssa.CallCommon, fnv Value, ar
 		sig, _ := cc.Value.Type().Underlying().(*types.Signature)
 		for _, f := range ex.prog.Pre.FuncValues {
 			if sig != nil && sigKey(f.Signature) == sigKey(sig) {
-				for k := range ex.prog.Pre.WriteSet[f] {
-					ex.havocKey(st, k)
-				}
+				ex.havocInferred(st, ex.prog.Pre.WriteSet[f])
 			}
 		}
 		ex.havocPointerArgs(st, cc, args)
@@ -125,9 +123,7 @@ func (ex *Exec) dispatch(fr *Frame, st *State, cc *ssa.CallCommon, fnv Value, ar
 		// interface method without contract: union of in-package implementations
 		for _, impl := range ex.prog.Pre.Impls[cc.Method.Name()] {
 			if sigKey(impl.Signature) == sigKey(cc.Method.Type().(*types.Signature)) {
-				for k := range ex.prog.Pre.WriteSet[impl] {
-					ex.havocKey(st, k)
-				}
+				ex.havocInferred(st, ex.prog.Pre.WriteSet[impl])
 			}
 		}
 		ex.havocPointerArgs(st, cc, args[1:])
@@ -143,6 +139,20 @@ func (ex *Exec) dispatch(fr *Frame, st *State, cc *ssa.CallCommon, fnv Value, ar
 	}
 	ex.siteHooksAfter(fr, st, instr, name, args, res)
 	return res
+}
+
+// havocInferred havocs an inferred write-set. Stable ghost ledgers (held,
+// rheld, pile) are exempt: a callee without an explicit lock-effect contract
+// is balanced by the default contract, which the sweep checks for the callee.
+func (ex *Exec) havocInferred(st *State, ws KeySet) {
+	for _, k := range ws.Sorted() {
+		if strings.HasPrefix(k, "G:") {
+			if g, ok := ex.prog.Contracts.GhostMaps[k[2:]]; ok && g.Stable {
+				continue
+			}
+		}
+		ex.havocKey(st, k)
+	}
 }
 
 func (ex *Exec) isTargetFn(fn *ssa.Function) bool {
@@ -276,6 +286,8 @@ func (ex *Exec) applyContract(fr *Frame, st *State, fc *FuncContract, fn *ssa.Fu
 	ts := ex.ts
 	if fc.IsStub {
 		ex.usedStubs[fc.Name] = true
+	} else if fc.Trusted {
+		ex.usedStubs[fc.Name+" (in-repo function, contract trusted: "+fc.TrustedReason+")"] = true
 	}
 	env := ex.calleeEnv(fc, fn, sig, args)
 	ctx := &EvalCtx{ex: ex, st: st, old: st, env: env, pkg: fc.Pkg, fnPos: fnPos(fn)}
@@ -372,11 +384,16 @@ func (ex *Exec) applyContract(fr *Frame, st *State, fc *FuncContract, fn *ssa.Fu
 			}
 		}
 	} else if fn != nil && ex.isTargetFn(fn) {
-		for k := range ex.prog.Pre.WriteSet[fn] {
-			ex.havocKey(st, k)
-		}
+		ex.havocInferred(st, ex.prog.Pre.WriteSet[fn])
 	}
 	for _, k := range fc.Havoc {
+		if strings.HasSuffix(k, "*") {
+			// prefix pattern over all heap keys known for the loaded packages
+			for _, full := range ex.prog.Pre.KeysWithPrefix(strings.TrimSuffix(k, "*")) {
+				ex.havocKey(st, full)
+			}
+			continue
+		}
 		ex.havocKey(st, k)
 	}
 	st.Time++
@@ -861,6 +878,7 @@ type loopState struct {
 	held, rheld *Term
 	nDefers     int
 	measure     *Term
+	stable      map[string]*Term // other stable ghost maps at the loop head
 }
 
 func (ex *Exec) loopSpec(fr *Frame, li *loopInfo) *LoopSpec {
@@ -920,8 +938,10 @@ func (ex *Exec) enterLoop(fr *Frame, li *loopInfo, st *State) {
 	}
 	_ = hasCall
 	for k := range ws {
-		if k == "G:held" || k == "G:rheld" {
-			continue
+		if strings.HasPrefix(k, "G:") {
+			if g, ok := ex.prog.Contracts.GhostMaps[k[2:]]; ok && g.Stable {
+				continue
+			}
 		}
 		ex.havocKey(st, k)
 	}
@@ -944,6 +964,12 @@ func (ex *Exec) enterLoop(fr *Frame, li *loopInfo, st *State) {
 	}
 	st.Time++
 	ls := &loopState{held: ex.heapGet(st, "G:held", SArray(SInt, SInt)), rheld: ex.heapGet(st, "G:rheld", SArray(SInt, SInt)), nDefers: len(st.Defers)}
+	ls.stable = map[string]*Term{}
+	for name, g := range ex.prog.Contracts.GhostMaps {
+		if g.Stable && name != "held" && name != "rheld" && ws["G:"+name] {
+			ls.stable[name] = ex.heapGet(st, "G:"+name, SArray(ghostSort(g.Key), ghostSort(g.Val)))
+		}
+	}
 	if fr.loopSt == nil {
 		fr.loopSt = map[*ssa.BasicBlock]*loopState{}
 	}
@@ -1068,6 +1094,9 @@ func (ex *Exec) closureCellWrites(fr *Frame, fn *ssa.Function, cells map[*Cell]b
 func (ex *Exec) backEdge(fr *Frame, li *loopInfo, st *State) {
 	ts := ex.ts
 	ls := fr.loopSt[li.head]
+	if os.Getenv("GOVC_DEBUG") != "" {
+		fmt.Fprintf(os.Stderr, "backEdge %s loop%d ls=%v heldHavocked=%v pc=%s\n", FuncName(fr.fn), li.index, ls != nil, ex.heldHavocked, truncate(ex.ts.Show(st.PC), 200))
+	}
 	if ls == nil {
 		return
 	}
@@ -1106,6 +1135,40 @@ func (ex *Exec) backEdge(fr *Frame, li *loopInfo, st *State) {
 	}
 	for _, l := range ex.rlockTerms {
 		conds = append(conds, ts.Eq(ts.Select(rheld, l), ts.Select(ls.rheld, l)))
+	}
+	if ex.heldHavocked {
+		// a contract redefined the whole held map (LockPile): compare all locks
+		// (pointwise, so that the quantified contracts instantiate at the
+		// skolem constant of the negated goal)
+		l := ts.BoundVar("l", SInt)
+		if held != ls.held {
+			conds = append(conds, ts.Forall([]*Term{l}, ts.Eq(ts.Select(held, l), ts.Select(ls.held, l))))
+		}
+		if rheld != ls.rheld {
+			conds = append(conds, ts.Forall([]*Term{l}, ts.Eq(ts.Select(rheld, l), ts.Select(ls.rheld, l))))
+		}
+	}
+	var names []string
+	for name := range ls.stable {
+		names = append(names, name)
+	}
+	sort.Strings(names)
+	for _, name := range names {
+		g := ex.prog.Contracts.GhostMaps[name]
+		cur := ex.heapGet(st, "G:"+name, SArray(ghostSort(g.Key), ghostSort(g.Val)))
+		head := ls.stable[name]
+		if cur == head {
+			continue
+		}
+		rowSort := ghostSort(g.Val)
+		for _, k := range ex.ghostTouched[name] {
+			if rowSort.IsArray() {
+				l := ts.BoundVar("l", rowSort.Args[0])
+				conds = append(conds, ts.Forall([]*Term{l}, ts.Eq(ts.Select(ts.Select(cur, k), l), ts.Select(ts.Select(head, k), l))))
+			} else {
+				conds = append(conds, ts.Eq(ts.Select(cur, k), ts.Select(head, k)))
+			}
+		}
 	}
 	c := ts.And(conds...)
 	if !c.IsTrue() {
